@@ -89,4 +89,9 @@ pub mod verif_hooks {
     pub fn metadata_address_range_size(s: &SideMetadataSpec) -> usize {
         super::helpers::metadata_address_range_size(s)
     }
+
+    /// `meta_byte_lshift`.
+    pub fn meta_byte_lshift(s: &SideMetadataSpec, data_addr: crate::util::Address) -> u8 {
+        super::helpers::meta_byte_lshift(s, data_addr)
+    }
 }
